@@ -78,6 +78,7 @@ func (h *hist) add(s string) {
 
 type pfate struct {
 	fail  bool
+	kind  int // how a failing PREPARE fails (pfFrame, pfUndecodable, pfOtherKind, pfSilent; meta.go)
 	delay time.Duration
 }
 
@@ -122,6 +123,12 @@ type world struct {
 	live     map[int]*liveCall // calls with a cancellable context (history lock)
 	stalled  bool              // the watchdog expired but the executions returned right after the goroutine dump
 	// hooks for directed scenarios: called with the history lock held, may override the fate
+	issued    map[string][]byte // id -> the value widths declared with it (never forgotten; history lock)
+	serialOf  map[string]int    // id -> the number of the latest PREPARE that issued it (history lock)
+	prepKey   map[int]string    // PREPARE number -> key label (history lock)
+	lastX     map[int][][]byte  // call -> the ids of its last EXECUTE / BATCH frame (history lock)
+	silent    map[string]int    // key label -> the one PREPARE of that key that was never answered (history lock)
+	timeout   time.Duration     // the Session's request timeout, if the world has a short one (silent PREPAREs allowed)
 	onPrepare func(n *nodeState, stmt int, serial int) (pfate, chan struct{})
 	onExec    func(n *nodeState, call int, known bool) (xfate, chan struct{}, bool)
 }
@@ -129,6 +136,18 @@ type world struct {
 type entrySpec struct {
 	stmt  int
 	nvals int
+	plain bool // batch entry without values: sent as a plain statement, not prepared (nvals 0)
+}
+
+// prepared: the entries the driver prepares (all but the plain entries of a batch)
+func (c *callSpec) prepared() []entrySpec {
+	var es []entrySpec
+	for _, e := range c.entries {
+		if !e.plain {
+			es = append(es, e)
+		}
+	}
+	return es
 }
 
 type callSpec struct {
@@ -189,7 +208,7 @@ func (w *world) cancelOnPrepareLocked(n *nodeState, si int, mode int) {
 		if lc.spec.ctx != mode || lc.returned || lc.kLogged || lc.spec.host != n.idx {
 			continue
 		}
-		for _, e := range lc.spec.entries {
+		for _, e := range lc.spec.prepared() {
 			if e.stmt == si {
 				nums = append(nums, num)
 				break
@@ -240,7 +259,7 @@ func after(d time.Duration, gate chan struct{}, f func()) {
 }
 
 // parseBatchTail returns the default timestamp of a BATCH frame (v3+), 0 if none.
-func parseBatchTail(req *memcluster.Request) (ts int64, nvals []int) {
+func parseBatchTail(req *memcluster.Request) (ts int64, vals [][][]byte) {
 	r := &memcluster.R{B: req.Frame.Body}
 	r.Byte()
 	n := r.Short()
@@ -251,10 +270,11 @@ func parseBatchTail(req *memcluster.Request) (ts int64, nvals []int) {
 			r.ShortBytes()
 		}
 		nv := r.Short()
-		nvals = append(nvals, nv)
+		ev := [][]byte{}
 		for j := 0; j < nv && r.Err == nil; j++ {
-			r.Bytes()
+			ev = append(ev, r.Bytes())
 		}
+		vals = append(vals, ev)
 	}
 	r.Short()
 	flags := r.Byte()
@@ -269,6 +289,19 @@ func parseBatchTail(req *memcluster.Request) (ts int64, nvals []int) {
 
 func trimTrace(op string) string {
 	return strings.TrimPrefix(strings.TrimPrefix(op, "traceU "), "trace ")
+}
+
+// hexToks: per prepared entry <id>/<widths of its values>
+func hexToks(ids, sigs [][]byte) string {
+	var p []string
+	for i, id := range ids {
+		var sg []byte
+		if i < len(sigs) {
+			sg = sigs[i]
+		}
+		p = append(p, vh.Hex(id)+"/"+vh.Hex(sg))
+	}
+	return strings.Join(p, ",")
 }
 
 func hexIDs(ids [][]byte) string {
@@ -313,19 +346,38 @@ func (w *world) handle(n *nodeState, req *memcluster.Request) {
 		w.cancelOnPrepareLocked(n, si, ctxAtPrepRecv)
 		var op byte
 		var body []byte
+		w.prepKey[serial] = key
+		silent := false
 		if f.fail {
-			w.h.evs = append(w.h.evs, hev{text: fmt.Sprintf("P:%d:%s:err", serial, key)})
-			op, body = memcluster.OpError, memcluster.ErrorBody(memcluster.ErrOverloaded, fmt.Sprintf("pf-%d", serial), nil)
+			kind := f.kind
+			if kind == pfSilent {
+				// at most one PREPARE per key is never answered, and only where the driver's timeout is short
+				if _, used := w.silent[key]; used || w.timeout == 0 {
+					kind = pfFrame
+				} else {
+					w.silent[key] = serial
+					silent = true
+				}
+			}
+			w.h.evs = append(w.h.evs, hev{text: fmt.Sprintf("P:%d:%s:err/%s", serial, key, pfWords[kind])})
+			op, body = failedPrepareReply(kind, serial)
 		} else {
 			id := w.idFor(si, serial)
 			n.registered[string(id)] = si
 			nc := w.stmts[si].ncols
-			w.h.evs = append(w.h.evs, hev{text: fmt.Sprintf("P:%d:%s:ok/%s/%d", serial, key, vh.Hex(id), nc)})
+			sig := w.bindSig(si, serial, nc)
+			w.issued[string(id)] = sig
+			w.serialOf[string(id)] = serial
+			w.h.evs = append(w.h.evs, hev{text: fmt.Sprintf("P:%d:%s:ok/%s/%d/%s", serial, key, vh.Hex(id), nc, vh.Hex(sig))})
 			op = memcluster.OpResult
-			body = memcluster.PreparedBody(4, id, intCols(nc, "b"), nil,
+			body = memcluster.PreparedBody(4, id, sigCols(sig, "b"), nil,
 				[]memcluster.Col{{Name: fmt.Sprintf("r%d", serial), Type: memcluster.TInt}})
 		}
 		w.h.mu.Unlock()
+		if silent {
+			// never answered: the flight's Conn.exec ends with the driver's timeout
+			return
+		}
 		atomic.AddInt32(&w.pending, 1)
 		after(f.delay, gate, func() {
 			w.h.mu.Lock()
@@ -335,22 +387,29 @@ func (w *world) handle(n *nodeState, req *memcluster.Request) {
 			atomic.AddInt32(&w.pending, -1)
 		})
 	case memcluster.OpExecute, memcluster.OpBatch:
-		var ids [][]byte
+		var ids, sigs [][]byte
 		var ts int64
 		var frameVals []int
+		var plainStmts []string
 		if req.Op == memcluster.OpExecute {
 			ids = [][]byte{req.PreparedID}
+			sigs = [][]byte{widthsOf(req.Values)}
 			ts = req.Timestamp
 			frameVals = []int{len(req.Values)}
 		} else {
-			var nv []int
-			ts, nv = parseBatchTail(req)
+			var vals [][][]byte
+			ts, vals = parseBatchTail(req)
 			for i, k := range req.BatchKinds {
 				if k == 1 {
 					ids = append(ids, req.BatchIDs[i])
-					if i < len(nv) {
-						frameVals = append(frameVals, nv[i])
+					if i < len(vals) {
+						frameVals = append(frameVals, len(vals[i]))
+						sigs = append(sigs, widthsOf(vals[i]))
+					} else {
+						sigs = append(sigs, nil)
 					}
+				} else {
+					plainStmts = append(plainStmts, req.BatchStmts[i])
 				}
 			}
 		}
@@ -362,13 +421,34 @@ func (w *world) handle(n *nodeState, req *memcluster.Request) {
 			bad = "Z:frame-of-unknown-call"
 		} else {
 			c := cs.(*callSpec)
+			pes := c.prepared()
 			if c.host != n.idx {
 				bad = fmt.Sprintf("Z:frame-of-call-%d-on-another-host", call)
-			} else if len(frameVals) == len(c.entries) {
-				for i, e := range c.entries {
+			} else if len(frameVals) == len(pes) {
+				for i, e := range pes {
 					if frameVals[i] != e.nvals {
 						bad = fmt.Sprintf("Z:frame-of-call-%d-carries-%d-values-for-%d-bound", call, frameVals[i], e.nvals)
 					}
+				}
+			}
+			// the entries without values travel as plain statements, in their places, with their own texts
+			var wantPlain []string
+			wantKinds := ""
+			for _, e := range c.entries {
+				if e.plain {
+					wantPlain = append(wantPlain, w.stmts[e.stmt].text)
+					wantKinds += "0"
+				} else {
+					wantKinds += "1"
+				}
+			}
+			if req.Op == memcluster.OpBatch && bad == "" {
+				gotKinds := ""
+				for _, k := range req.BatchKinds {
+					gotKinds += strconv.Itoa(int(k))
+				}
+				if gotKinds != wantKinds || strings.Join(plainStmts, "\x00") != strings.Join(wantPlain, "\x00") {
+					bad = fmt.Sprintf("Z:batch-of-call-%d-entry-kinds-%s-for-%s-or-another-plain-statement", call, gotKinds, wantKinds)
 				}
 			}
 		}
@@ -394,7 +474,7 @@ func (w *world) handle(n *nodeState, req *memcluster.Request) {
 			w.h.evs = append(w.h.evs, hev{text: fmt.Sprintf("L:%d", call)})
 		}
 		if w.cut[call] {
-			w.h.evs = append(w.h.evs, hev{text: fmt.Sprintf("X:%d:%s:err", call, hexIDs(ids))})
+			w.h.evs = append(w.h.evs, hev{text: fmt.Sprintf("X:%d:%s:err", call, hexToks(ids, sigs))})
 			w.h.mu.Unlock()
 			sc.Reply(req.Stream, memcluster.OpError, memcluster.ErrorBody(memcluster.ErrInvalid, "xe", nil))
 			return
@@ -406,11 +486,22 @@ func (w *world) handle(n *nodeState, req *memcluster.Request) {
 			f = n.xf[n.nx]
 			n.nx++
 		}
+		w.lastX[call] = ids
 		ans := "ok"
 		op, body := byte(memcluster.OpResult), memcluster.VoidBody()
+		if req.Op == memcluster.OpExecute {
+			// rows of one column named after the PREPARE that issued the id (with stable ids: the latest one); without
+			// metadata if the frame says the driver has it from the PREPARE answer
+			name := "r?"
+			if sn, ok := w.serialOf[string(ids[0])]; ok {
+				name = fmt.Sprintf("r%d", sn)
+			}
+			body = memcluster.RowsBody([]memcluster.Col{{Name: name, Type: memcluster.TInt}}, nil, nil, req.QFlags&0x02 != 0)
+		}
+		unTok := func(id []byte) string { return "un/" + vh.Hex(id) + "/" + vh.Hex(w.issued[string(id)]) }
 		switch {
 		case unknown != nil:
-			ans = "un/" + vh.Hex(unknown)
+			ans = unTok(unknown)
 			op, body = memcluster.OpError, memcluster.ErrorBody(memcluster.ErrUnprepared, "unprepared", memcluster.UnpreparedExtra(unknown))
 		case f.kind == 1:
 			ans = "err"
@@ -418,15 +509,15 @@ func (w *world) handle(n *nodeState, req *memcluster.Request) {
 		case f.kind == 2:
 			w.nforget++
 			n.registered = map[string]int{}
-			ans = "un/" + vh.Hex(ids[0])
+			ans = unTok(ids[0])
 			op, body = memcluster.OpError, memcluster.ErrorBody(memcluster.ErrUnprepared, "unprepared", memcluster.UnpreparedExtra(ids[0]))
 		case f.kind == 3:
 			w.nforget++
 			other := []byte("other-id")
-			ans = "un/" + vh.Hex(other)
+			ans = unTok(other)
 			op, body = memcluster.OpError, memcluster.ErrorBody(memcluster.ErrUnprepared, "unprepared", memcluster.UnpreparedExtra(other))
 		}
-		w.h.evs = append(w.h.evs, hev{text: fmt.Sprintf("X:%d:%s:%s", call, hexIDs(ids), ans)})
+		w.h.evs = append(w.h.evs, hev{text: fmt.Sprintf("X:%d:%s:%s", call, hexToks(ids, sigs), ans)})
 		if lc := w.live[call]; lc != nil && lc.spec.ctx == ctxAtExec {
 			w.cancelLocked(call)
 		}
@@ -496,12 +587,14 @@ type worldCfg struct {
 	stmts                    []stmtDef
 	stableID                 bool
 	ks                       string
+	timeout                  time.Duration // 0: the usual 10 minutes (no request ever times out)
 }
 
 func newWorld(r *vh.Rng, c worldCfg) (*world, error) {
 	w := &world{r: r, h: &hist{}, stmts: c.stmts, stmtIdx: map[string]int{}, byIP: map[string]*nodeState{},
 		stableID: c.stableID, ks: c.ks, keyLabel: map[string]string{}, capacity: c.capacity, frames: map[int]int{}, cut: map[int]bool{},
-		live: map[int]*liveCall{}}
+		live: map[int]*liveCall{}, issued: map[string][]byte{}, serialOf: map[string]int{}, prepKey: map[int]string{},
+		lastX: map[int][][]byte{}, silent: map[string]int{}, timeout: c.timeout}
 	for i, s := range c.stmts {
 		w.stmtIdx[s.text] = i
 	}
@@ -520,6 +613,9 @@ func newWorld(r *vh.Rng, c worldCfg) (*world, error) {
 	cfg := sess.Config(cl, 4, ips...)
 	cfg.NumConns = c.nconns
 	cfg.Timeout = 10 * time.Minute
+	if c.timeout > 0 {
+		cfg.Timeout = c.timeout
+	}
 	cfg.ConnectTimeout = 20 * time.Second
 	cfg.MaxPreparedStmts = c.capacity
 	cfg.Keyspace = c.ks
@@ -568,6 +664,41 @@ func (w *world) sampleLen() {
 
 var pfRe = regexp.MustCompile(`pf-(\d+)`)
 
+// checkResultCol (history lock held): "" or a Z event
+func (w *world) checkResultCol(num int, c *callSpec, name string) string {
+	ids := w.lastX[num]
+	if len(ids) != 1 || !strings.HasPrefix(name, "r") {
+		return fmt.Sprintf("Z:call-%d-result-column-%s-without-a-frame", num, sanitize(name))
+	}
+	sn, err := strconv.Atoi(name[1:])
+	key, known := w.prepKey[sn]
+	if err != nil || !known || key != keyLabel(c.host, c.entries[0].stmt) ||
+		(!w.stableID && string(w.idFor(c.entries[0].stmt, sn)) != string(ids[0])) {
+		return fmt.Sprintf("Z:call-%d-result-metadata-%s-is-not-that-of-the-PREPARE-whose-id-it-executed", num, sanitize(name))
+	}
+	return ""
+}
+
+// classify (history lock held): the outcome word of the T event
+func (w *world) classify(c *callSpec, err error) string {
+	if err == nil {
+		return "ok"
+	}
+	if errors.Is(err, context.Canceled) || errors.Is(err, context.DeadlineExceeded) {
+		return "ctx"
+	}
+	var keys []string
+	for _, e := range c.prepared() {
+		keys = append(keys, keyLabel(c.host, e.stmt))
+	}
+	if _, isReq := err.(gocql.RequestError); !isReq {
+		if n, ok := w.failedPrepareSerial(err.Error(), keys); ok {
+			return fmt.Sprintf("pe/%d", n)
+		}
+	}
+	return classify(err)
+}
+
 func classify(err error) string {
 	if err == nil {
 		return "ok"
@@ -610,7 +741,7 @@ func (w *world) doCall(c *callSpec) {
 	w.h.ncalls++
 	w.calls.Store(num, c)
 	var es []string
-	for _, e := range c.entries {
+	for _, e := range c.prepared() {
 		es = append(es, fmt.Sprintf("%s/%d", keyLabel(c.host, e.stmt), e.nvals))
 	}
 	kind := "q"
@@ -660,6 +791,7 @@ func (w *world) doCall(c *callSpec) {
 		}
 	}
 	var err error
+	resultCol := ""
 	func() {
 		defer func() {
 			if r := recover(); r != nil {
@@ -670,7 +802,9 @@ func (w *world) doCall(c *callSpec) {
 		if c.batch {
 			b := w.sess.NewBatch(gocql.UnloggedBatch).WithContext(ctx).WithTimestamp(int64(num + 1))
 			for i, e := range c.entries {
-				if c.ctx == ctxAtBind {
+				if e.plain {
+					b.Query(w.stmts[e.stmt].text)
+				} else if c.ctx == ctxAtBind {
 					b.Bind(w.stmts[e.stmt].text, binder(i, e.nvals))
 				} else {
 					b.Query(w.stmts[e.stmt].text, vals(e.nvals)...)
@@ -679,11 +813,17 @@ func (w *world) doCall(c *callSpec) {
 			err = w.sess.ExecuteBatch(b)
 		} else {
 			e := c.entries[0]
+			var q *gocql.Query
 			if c.ctx == ctxAtBind {
-				err = w.sess.Bind(w.stmts[e.stmt].text, binder(0, e.nvals)).WithContext(ctx).WithTimestamp(int64(num + 1)).Exec()
+				q = w.sess.Bind(w.stmts[e.stmt].text, binder(0, e.nvals))
 			} else {
-				err = w.sess.Query(w.stmts[e.stmt].text, vals(e.nvals)...).WithContext(ctx).WithTimestamp(int64(num + 1)).Exec()
+				q = w.sess.Query(w.stmts[e.stmt].text, vals(e.nvals)...)
 			}
+			it := q.WithContext(ctx).WithTimestamp(int64(num + 1)).Iter()
+			if cols := it.Columns(); len(cols) > 0 {
+				resultCol = cols[0].Name
+			}
+			err = it.Close()
 		}
 	}()
 	w.h.mu.Lock()
@@ -691,7 +831,14 @@ func (w *world) doCall(c *callSpec) {
 		lc.returned = true
 	}
 	if !w.h.stopped {
-		w.h.evs = append(w.h.evs, hev{text: fmt.Sprintf("T:%d:%s", num, classify(err))})
+		if err == nil && !c.batch {
+			// result metadata of that statement: the Iter's column is the one the PREPARE whose id the call's last
+			// frame carried declared (with ids stable per statement: a PREPARE of that statement on that host)
+			if bad := w.checkResultCol(num, c, resultCol); bad != "" {
+				w.h.evs = append(w.h.evs, hev{text: bad})
+			}
+		}
+		w.h.evs = append(w.h.evs, hev{text: fmt.Sprintf("T:%d:%s", num, w.classify(c, err))})
 	}
 	w.h.mu.Unlock()
 	w.sampleLen()
@@ -809,9 +956,12 @@ func (w *world) render(hung string) string {
 					}
 				}
 			case strings.HasPrefix(tag, "err:"):
-				if m := pfRe.FindStringSubmatch(tag); m != nil {
-					lab, _ = strconv.Atoi(m[1])
+				key := strings.TrimSuffix(strings.TrimPrefix(e.text, "R:"), ":")
+				w.h.mu.Lock()
+				if n, ok := w.failedPrepareSerial(tag, []string{key}); ok {
+					lab = n
 				}
+				w.h.mu.Unlock()
 			}
 			if lab < 0 {
 				lab = unresolved
@@ -888,7 +1038,7 @@ func (w *world) probes(wg *sync.WaitGroup) *sync.WaitGroup {
 		var keys []hk
 		w.calls.Range(func(_, v interface{}) bool {
 			cs := v.(*callSpec)
-			for _, e := range cs.entries {
+			for _, e := range cs.prepared() {
 				k := hk{cs.host, e.stmt}
 				if !seen[k] {
 					seen[k] = true
@@ -980,7 +1130,7 @@ func (rn *runner) randomWith(near bool) {
 	for _, n := range w.nodes {
 		for j := range w.stmts {
 			for i := 0; i < 40; i++ {
-				f := pfate{fail: r.Intn(100) < pfail}
+				f := pfate{fail: r.Intn(100) < pfail, kind: r.Intn(3)}
 				if slow || r.Intn(4) == 0 {
 					f.delay = time.Duration(r.Intn(1500)) * time.Microsecond
 				}
@@ -1030,6 +1180,12 @@ func (rn *runner) randomWith(near bool) {
 						e.nvals = 1 // entries without values are not prepared
 					}
 					cs.entries = append(cs.entries, e)
+				}
+				// ... and travel as plain statements among the prepared ones (never alone: a call prepares something)
+				if r.Intn(3) == 0 {
+					at := r.Intn(len(cs.entries) + 1)
+					pe := entrySpec{stmt: r.Intn(nst), plain: true}
+					cs.entries = append(cs.entries[:at], append([]entrySpec{pe}, cs.entries[at:]...)...)
 				}
 			} else {
 				cs.entries = []entrySpec{pick()}
@@ -1226,7 +1382,7 @@ func (rn *runner) retryUnderContention(attempts int) {
 	}
 	bad := 0
 	w.onPrepare = func(n *nodeState, stmt, serial int) (pfate, chan struct{}) {
-		return pfate{fail: stmt == bad}, nil
+		return pfate{fail: stmt == bad, kind: serial % 3}, nil
 	}
 	var stop int32
 	var hammers sync.WaitGroup
@@ -1325,7 +1481,7 @@ func (rn *runner) lostStatement(k int, reprepareFails bool, batch bool) {
 		if serial == nprepBefore {
 			// the re-PREPARE caused by the first UNPREPARED answer: now let the other answers go, hold this one
 			once.Do(func() { close(release) })
-			return pfate{fail: reprepareFails, delay: 60 * time.Millisecond}, gate
+			return pfate{fail: reprepareFails, kind: serial % 3, delay: 60 * time.Millisecond}, gate
 		}
 		return pfate{}, nil
 	}
@@ -1388,7 +1544,7 @@ func (rn *runner) evictionInFlight() {
 	w.onPrepare = nil
 	for j := range w.stmts {
 		for i := 0; i < 200; i++ {
-			w.nodes[0].pf[j] = append(w.nodes[0].pf[j], pfate{fail: r.Intn(100) < pfail, delay: time.Duration(200+r.Intn(2500)) * time.Microsecond})
+			w.nodes[0].pf[j] = append(w.nodes[0].pf[j], pfate{fail: r.Intn(100) < pfail, kind: r.Intn(3), delay: time.Duration(200+r.Intn(2500)) * time.Microsecond})
 		}
 	}
 	var wg sync.WaitGroup
@@ -1423,7 +1579,7 @@ func (rn *runner) sameStatementBurst() {
 	}
 	fails := r.Intn(3) == 0
 	for j := range w.stmts {
-		w.nodes[0].pf[j] = []pfate{{fail: fails && j == 0, delay: time.Duration(r.Intn(3000)) * time.Microsecond}}
+		w.nodes[0].pf[j] = []pfate{{fail: fails && j == 0, kind: r.Intn(3), delay: time.Duration(r.Intn(3000)) * time.Microsecond}}
 	}
 	var sizes []int
 	for range w.stmts {
@@ -1680,7 +1836,17 @@ func runSeqSpec(sp *seqSpec, outdir, tag string) (op string, hung string, err er
 	}
 	nx := 0
 	w.onPrepare = func(n *nodeState, stmt, serial int) (pfate, chan struct{}) {
-		return pfate{fail: serial < len(sp.pf) && sp.pf[serial] == 'e'}, nil
+		if serial < len(sp.pf) {
+			switch sp.pf[serial] {
+			case 'e':
+				return pfate{fail: true, kind: pfFrame}, nil
+			case 'g':
+				return pfate{fail: true, kind: pfUndecodable}, nil
+			case 'k':
+				return pfate{fail: true, kind: pfOtherKind}, nil
+			}
+		}
+		return pfate{}, nil
 	}
 	w.onExec = func(n *nodeState, call int, known bool) (xfate, chan struct{}, bool) {
 		if !known || nx >= len(sp.xf) {
@@ -1738,7 +1904,7 @@ func (rn *runner) sequential() {
 	for i := range pf {
 		pf[i] = 'o'
 		if r.Intn(5) == 0 {
-			pf[i] = 'e'
+			pf[i] = "egk"[r.Intn(3)]
 		}
 	}
 	xf := make([]byte, 80)
